@@ -73,7 +73,7 @@ def run(ctx):
             ("forms3", cfg(3, SOME, '{"a", "top"}', 1, forms=FORMS, tags="TagsTwo"), None, None),
             ("opts3", cfg(3, '{"a", "a_1"}', '{"a"}', 1, forms='{"ref", "top", "bottom"}', tags="TagsTwo", tms=ALLTM,
                           intos="{FALSE, TRUE}"), None, None),
-            ("reps13", cfg(13, '{"a", "a_10", "a_1"}', '{"a"}', 0), None, None),
+            ("reps13", cfg(13, '{"a", "a_10"}', '{"a"}', 0), None, None),
             ("sim", cfg(9, POOLX, POOLX, 4, forms=FORMS, tags="TagsFew", tms=ALLTM, intos="{FALSE, TRUE}"), "num=10", 10),
         ]
     # the source dictionary as call names (one output column each), plain and under INTO / an omitted time column
